@@ -93,6 +93,81 @@ Theorem add_order_permutes_rows : forall ty sys l l',
 Proof. exact add_order_permutes_rows_lemma. Qed.
 Print Assumptions add_order_permutes_rows.
 
+(* ... and on the EXECUTABLE numeric models (Cal/SolveSimple.v assembly as coded, Cal/CalQI.v: the exact LU model
+   of C19 for square systems, the normal-equation oracle LsSpec.ls_solve for over-determined ones), at the
+   Gaussian rationals: for EVERY type, all dimensions, every parameter valuation, every list of measured
+   standards ms and EVERY permutation ms' of it,
+     * every linear system gets the same verdict (insufficient / singular / solved), its assembled rows
+       (coefficients and right-hand side, leakage means subtracted) are permuted, and the solution is EQUAL:
+       tall systems because A^H A and A^H b are equal (a sum over the rows: OrderProofs.normal_equations_perm);
+       square systems because the determinant reported by the LU model is zero for both orders or for neither
+       and a non-zero determinant means a unique solution (C19: lu_solves, lu_kernel_trivial,
+       q_lu_c_outcome) -- the pivot sequences may differ;
+     * the saved error-term vector (unity terms, leakage terms, E12 conversion) is equal.
+   Exact arithmetic; the C code solves tall systems by QR, not by normal equations (C19 compares them
+   numerically); unknown-parameter (iterative) solving and m_error weights are not in this model. *)
+Require Import LV.Base.QcI LV.Cal.Sym LV.Cal.SolveSimple LV.Cal.CalQI LV.Cal.SolveRecovers LV.Cal.EndToEnd LV.Cal.OrderProofs.
+Theorem c17_order_irrelevant_model : forall ty mr mc (pval : Z -> qi) (ms ms' : list (mvals qops)),
+  Permutation ms ms' ->
+  (forall sys, sys_equiv (q_solve_system ty mr mc ms pval sys) (q_solve_system ty mr mc ms' pval sys)) /\
+  q_error_terms ty mr mc ms pval = q_error_terms ty mr mc ms' pval.
+Proof. exact c17_order_irrelevant_model_lemma. Qed.
+Print Assumptions c17_order_irrelevant_model.
+
+(* composed with the add model: the same vnacal_new_add_* calls (arguments and measured values, accepted or
+   refused) made in another order give the same saved error terms *)
+Theorem c17_order_irrelevant_calls : forall ty mr mc (pval : Z -> qi) (l l' : list (add_args * list qi)),
+  Permutation l l' ->
+  q_error_terms ty mr mc (measure_all l) pval = q_error_terms ty mr mc (measure_all l') pval.
+Proof. exact c17_order_irrelevant_calls_lemma. Qed.
+Print Assumptions c17_order_irrelevant_calls.
+
+(* not vacuous: one-port T8, three reflects (square, LU) and four reflects (tall, normal equations) in reverse
+   order: different systems, same error terms *)
+Example c17_order_irrelevant_model_example :
+  Permutation ex_ms (rev ex_ms) /\
+  map snd (q_assemble T8 1 1 (rev ex_ms) ex_pval 0) <> map snd (q_assemble T8 1 1 ex_ms ex_pval 0) /\
+  q_error_terms T8 1 1 (rev ex_ms) ex_pval = Some (true_terms T8 1 1 ex_ms ex_xs) /\
+  length (q_assemble T8 1 1 ex_ms4 ex_pval4 0) = 4%nat /\
+  is_some_terms (q_error_terms T8 1 1 ex_ms4 ex_pval4) = true /\
+  q_error_terms T8 1 1 (rev ex_ms4) ex_pval4 = q_error_terms T8 1 1 ex_ms4 ex_pval4.
+Proof. exact c17_order_irrelevant_model_example_lemma. Qed.
+
+(* ---------------------------------------------------------------------------------- renumbering of the ports *)
+(* For EVERY number of ports n, every renumbering p of the ports 0 .. n-1 (with inverse q) and any two S matrices
+   whose known-zero cells correspond under it: the connectivity matrix (which decides the equations that are
+   generated and the cells that feed the leakage terms) of the renumbered standard is the renumbered
+   connectivity matrix.  The arrays set[] the two scans leave are in general NOT renumbered copies
+   (connectivity_equivariant_example).  Consequence of C01's connectivity_closed_every_n. *)
+Require Import LV.Cal.ConnProofs.
+Theorem connectivity_equivariant : forall n s s' (p q : nat -> nat),
+  (forall i, (i < n)%nat -> (p i < n)%nat /\ q (p i) = i) ->
+  (forall k, (k < n)%nat -> (q k < n)%nat /\ p (q k) = k) ->
+  (forall i j, (i < n)%nat -> (j < n)%nat ->
+     scell_is_zero (nth (p i * n + p j) s' SNull) = scell_is_zero (nth (i * n + j) s SNull)) ->
+  forall i j, (i < n)%nat -> (j < n)%nat ->
+    nth (p i * n + p j) (build_connectivity n s') false = nth (i * n + j) (build_connectivity n s) false.
+Proof. exact connectivity_equivariant_lemma. Qed.
+Print Assumptions connectivity_equivariant.
+
+(* the same with the renumbering given as a list: every permutation of 0 .. n-1 *)
+Theorem connectivity_equivariant_perm : forall n s s' (pl : list nat),
+  Permutation pl (seq 0 n) ->
+  (forall i j, (i < n)%nat -> (j < n)%nat ->
+     scell_is_zero (nth (nth i pl 0 * n + nth j pl 0) s' SNull) = scell_is_zero (nth (i * n + j) s SNull)) ->
+  forall i j, (i < n)%nat -> (j < n)%nat ->
+    nth (nth i pl 0 * n + nth j pl 0) (build_connectivity n s') false = nth (i * n + j) (build_connectivity n s) false.
+Proof. exact connectivity_equivariant_perm_lemma. Qed.
+Print Assumptions connectivity_equivariant_perm.
+
+Example connectivity_equivariant_example :
+  Permutation rot6 (seq 0 6) /\
+  (forall i j, (i < 6)%nat -> (j < 6)%nat ->
+     scell_is_zero (nth (nth i rot6 0 * 6 + nth j rot6 0) chain6_rot SNull) = scell_is_zero (nth (i * 6 + j) chain6 SNull)) /\
+  scan_set 6 chain6_rot <> map (fun k => nth k rot6 0%nat) (scan_set 6 chain6) /\
+  build_connectivity 6 chain6_rot <> build_connectivity 6 chain6.
+Proof. exact ConnProofs.connectivity_equivariant_example. Qed.
+
 (* ------------------------------------------------------------------------------------------------ *)
 (* Matrix algebra only (mathcomp, any field, any n).  None of the following mentions AddModel, the solver or
    the applied S-parameters: they are the identities behind the property, named _algebra. *)
